@@ -11,6 +11,7 @@ import BV.C12.Spec
 import BV.C12.Gen
 import BV.C12.Lemmas4
 import BV.C12.Lemmas5
+import BV.C12.Lemmas6
 import BV.Generated.C12
 namespace BV.C12
 open Spec
@@ -173,6 +174,13 @@ theorem template_valid_heap (e : Env) (pool : List Tx) (fuel : Nat)
     (hmax : e.maxWeight ≤ MAX_BLOCK_WEIGHT) :
     blockValid e pool (candidate heapOps e pool fuel) = true :=
   template_valid heapLaw e pool fuel hp he hno hmax
+
+/-- The fuel the driver uses is enough: the model's loop ends because the queue is empty, exactly like
+Go's `for priorityQueue.Len() > 0` (each iteration retires an item for good, except the single re-push
+at the priority→fee switch). -/
+theorem fuel_sufficient (e : Env) (pool : List Tx) (fuel : Nat) (hf : defaultFuel pool ≤ fuel) :
+    heapOps.pop (runSelect heapOps e pool fuel).byFee (runSelect heapOps e pool fuel).queue = none :=
+  runSelect_done heapSize e pool fuel hf
 
 /-! ## F-C12-a: why the clock matters -/
 
